@@ -3,7 +3,7 @@
    Model: Model/TypeName.v (tokenize, parse, parse_type = Serialization._parse_type).
    This file holds only the property theorems; proofs are in Proofs/TypeNameProofs.v. *)
 From Coq Require Import ZArith List.
-From V Require Import Result TypeName TypeNameProofs.
+From V Require Import Result Bytes TypeName TypeNameProofs Codec AuxTable.
 Import ListNotations.
 
 (* every grammar string is accepted, with the grammar's tree *)
@@ -19,6 +19,24 @@ Theorem C15_rejects_with_TypeNameError :
   forall s, (exists t, parse_type s = Ok t) \/ parse_type s = Err ETypeName.
 Proof. exact parse_total. Qed.
 
+(* the grammar decides at the entry points that take a type name: encoding and decoding under a name outside the grammar fail with
+   TypeNameError whatever the value (other than an opaque blob, which is written verbatim under any name) and the bytes, and a table LOADED with such a name (Model/AuxTable.v: the lazy decode behind
+   AuxData.data) fails with TypeNameError at every access and stays as it was loaded *)
+Theorem C15_entry_points_reject : forall get s v bs, parse_type s = Err ETypeName ->
+  ((forall b, v <> VUnknown b) -> encode_top s v = Err ETypeName) /\
+  (decode_top get s bs = Err ETypeName) /\
+  (read get (load s bs) = Err ETypeName) /\
+  (forall n, steps get (load s bs) (repeat Read n) = load s bs).
+Proof.
+  intros get s v bs H.
+  assert (Hd : decode_top get s bs = Err ETypeName) by (unfold decode_top; rewrite H; reflexivity).
+  assert (Hr : read get (load s bs) = Err ETypeName) by (unfold read, load; cbn [lazy]; rewrite Hd; reflexivity).
+  split; [intros Hv; unfold encode_top; destruct v; try (rewrite H; reflexivity); exfalso; eapply Hv; reflexivity|].
+  split; [exact Hd|]. split; [exact Hr|].
+  induction n as [|n IH]; [reflexivity|].
+  cbn [repeat steps step]. rewrite Hr. cbn. exact IH.
+Qed.
+
 (* non-vacuity: a nested name with a space and a non-ASCII character satisfies the premises *)
 Example C15_example :
   let t := T [109; 97; 112] [T [115; 32; 116] []; T [115; 101; 116] [T [233] []]] in
@@ -28,3 +46,4 @@ Proof. vm_compute. repeat split; reflexivity. Qed.
 Print Assumptions C15_accepts_grammar.
 Print Assumptions C15_only_grammar.
 Print Assumptions C15_rejects_with_TypeNameError.
+Print Assumptions C15_entry_points_reject.
